@@ -121,3 +121,10 @@ VOCAB = [VA, VB, VC, VP, VS1, VS2]
 def vocab_functor(x, y=1):
   """A module-level functor: `vocab_functor(1)` is a pg.Object with fields x, y."""
   return x
+
+
+class N(pg.Object):
+  """Not in the type registry: loadable only through `auto_import` (module + qualified name)."""
+  auto_register = False
+  x: pg.typing.Int()
+  w: pg.typing.Any(default=None)
